@@ -37,6 +37,95 @@ def _template(e):
     return None, None
 
 
+def _bulk(ctx, index):
+    """structural parts of openapi_bulk (its closure for arbitrary names remains a data convention)"""
+    f = index.func("cdd.compound.openapi.gen_openapi.openapi_bulk.construct_parameters_and_request_bodies")
+    # (a) the path parameter declaration: a fresh dict per parameter, named by the very variable that fills
+    #     the `{pk}` placeholder
+    apps = [
+        n
+        for n in iter_own(f.node)
+        if isinstance(n, ast.Call) and isinstance(n.func, ast.Attribute) and n.func.attr == "append" and norm(n.func.value) == "path_dict['parameters']"
+    ]
+    ctx.need(apps, "the path-parameter declaration vanished from openapi_bulk")
+    for a in apps:
+        x = a.args[0] if a.args else None
+        lam = f.mod.parents.get(a)
+        while lam is not None and not isinstance(lam, ast.Lambda):
+            lam = f.mod.parents.get(lam)
+        pvar = lam.args.args[0].arg if isinstance(lam, ast.Lambda) and lam.args.args else None
+        placeholder = [
+            c
+            for c in (ast.walk(lam.body) if isinstance(lam, ast.Lambda) else [])
+            if isinstance(c, ast.Call) and isinstance(c.func, ast.Attribute) and c.func.attr == "format" and isinstance(c.func.value, ast.Constant) and c.func.value.value == "{{{}}}"
+        ]
+        if isinstance(x, ast.Dict):
+            d = {k.value: v for k, v in zip(x.keys, x.values) if isinstance(k, ast.Constant)}
+            ok = (
+                norm(d.get("name")) == pvar
+                and isinstance(d.get("in"), ast.Constant)
+                and d["in"].value == "path"
+                and placeholder
+                and norm(placeholder[0].args[0]) == pvar
+            )
+            ctx.ob("C16.params", f, a, bool(ok), "" if ok else "the declared parameter name is not the variable that fills the `{...}` placeholder of the path")
+        else:
+            shared = None
+            if isinstance(x, ast.Call) and x.args and isinstance(x.args[0], ast.Name):
+                nm = x.args[0].id
+                inside = isinstance(lam, ast.Lambda) and any(isinstance(t, ast.Name) and t.id == nm and isinstance(t.ctx, ast.Store) for t in ast.walk(lam))
+                if not inside:
+                    shared = nm
+            ctx.ob(
+                "C16.params",
+                f,
+                a,
+                False,
+                (
+                    "every path item appends the SAME object `{}` (bound once outside the per-parameter lambda and "
+                    "updated in place): all declarations alias one dict and the last route's name wins, so the other "
+                    "paths' template parameters are undeclared".format(shared)
+                )
+                if shared
+                else "the path-parameter declaration is not a fresh dict literal per parameter",
+            )
+    # (b) request body name -> schema key is the inverse of the emitters' "{name}Body" template
+    suffix = None
+    eo = index.func("cdd.compound.openapi.utils.emit_openapi_utils.components_paths_from_name_model_route_id_crud")
+    for n in iter_own(eo.node):
+        if isinstance(n, ast.Constant) and isinstance(n.value, str):
+            mt = re.match(r"^\{name\}(\w+)$", n.value)
+            if mt:
+                suffix = mt.group(1)
+    ctx.need(suffix is not None, "cannot read the request-body name template from the emitter")
+    inv = [
+        n
+        for n in iter_own(f.node)
+        if isinstance(n, ast.Call) and isinstance(n.func, ast.Lambda) and n.args and "body_name" in norm(n.args[0])
+    ]
+    ctx.need(inv, "the body_name -> schema key derivation vanished from openapi_bulk")
+    for c in inv:
+        e = c.args[0]
+        t = norm(e)
+        forms = (
+            "body_name.rpartition({!r})[0]".format(suffix),
+            "body_name[:-len({!r})]".format(suffix),
+            "body_name.removesuffix({!r})".format(suffix),
+            "body_name[:-{}]".format(len(suffix)),
+        )
+        ok = t in forms
+        why = ""
+        if not ok:
+            if isinstance(e, ast.Call) and isinstance(e.func, ast.Attribute) and e.func.attr in ("rstrip", "strip", "lstrip"):
+                why = (
+                    "`{}` strips a SET of characters, not the suffix {!r}: names ending in one of those letters lose "
+                    "more than the suffix and the body's schema $ref dangles".format(t, suffix)
+                )
+            else:
+                why = "`{}` is not the inverse of the emitters' template {!r}".format(t, "{name}" + suffix)
+        ctx.ob("C16.refs", f, e, ok, why)
+
+
 def run(ctx):
     """entry"""
     index = ctx.index
@@ -238,6 +327,7 @@ def run(ctx):
         )
     if letter_fn.get("U", 1) is None:
         ctx.note("the CLI admits CRUD letter 'U' but gen_routes maps it to None (TypeError when requested): outside the property's {C,R,D} domain")
+    _bulk(ctx, index)
     # -------------------------------------------------------------- params
     ctx.need(item_var is not None, "item path template vanished")
     var, args, tpl_node = item_var
